@@ -55,6 +55,10 @@ pub const SRC_POOL: &[&str] = &[
     "file:///f.js",
     "C:/win/x.js",
     "ftp://h/z.js",
+    // names that begin with one of the roots of ROOT_POOL
+    "r/x.js",
+    "src/in-src.js",
+    "webpack:///w.js",
 ];
 
 pub const NAME_POOL: &[&str] = &[
@@ -62,7 +66,7 @@ pub const NAME_POOL: &[&str] = &[
     "function", "é", "$x", "_y", "ünïcödé_näme_wïth_mäny_bytes_ßßßß_名前",
 ];
 
-pub const ROOT_POOL: &[&str] = &["", "r", "r/", "/", "webpack:///", "http://h/base/", "r//", "/abs", "é/"];
+pub const ROOT_POOL: &[&str] = &["", "r", "r/", "/", "webpack:///", "http://h/base/", "r//", "/abs", "é/", "src", "src/"];
 
 pub const CONTENT_POOL: &[&str] = &[
     "",
